@@ -109,7 +109,7 @@ def run_shard(shard: dict, ctx, res, only=None) -> None:
         res.evaluations += 1
         _one(fil, X, C, N, bounds_, shard, g, start, ns, s, res)
     # the custom allocator argument: the blocks must not depend on which buffer type backs them
-    if only is None or (len(only) == 5 and only[4] != "beyond"):
+    if only is None or (len(only) == 5 and only[4] not in ("beyond", "defaults")):
         allocs = {"numpy": lambda n: np.zeros(n, dtype=np.uint8), "memoryview": lambda n: memoryview(bytearray(n))}
         for g, start, ns, s in [(2, 0, None, 1), (3, 1, N - 1 if N > 1 else None, 0), (N + 1, 0, None, 0)]:
             if only is not None and [g, start, ns, s] != only[:4]:
@@ -136,6 +136,18 @@ def run_shard(shard: dict, ctx, res, only=None) -> None:
                         res.outcome("accepted/custom_allocator")
                 except Exception as e:  # noqa: BLE001
                     res.violation({"site": "FilReader.read_plan", "symptom": f"raised {type(e).__name__} with a custom allocator", "allocator": aname}, case, repr(e))
+    # every argument left at its default: the whole stream, from sample 0, no overlap
+    if only is None or (len(only) == 5 and only[4] == "defaults"):
+        res.evaluations += 1
+        case = {"shard": shard, "inner": [0, 0, None, 0, "defaults"]}
+        try:
+            got = np.concatenate([np.array(d, copy=True).reshape(nr, C) for nr, _ii, d in fil.read_plan(quiet=True)])
+            if got.shape != X.shape or not np.array_equal(got.astype(np.float64), X.astype(np.float64)):
+                res.violation({"site": "FilReader.read_plan", "symptom": "wrong samples delivered with all arguments at their defaults"}, case, f"got {got.shape[0]} samples, want {N}")
+            else:
+                res.outcome("accepted/defaults")
+        except Exception as e:  # noqa: BLE001
+            res.violation({"site": "FilReader.read_plan", "symptom": f"raised {type(e).__name__} with all arguments at their defaults"}, case, repr(e))
     # requests that reach beyond the stream (outside the quantifier for WHEN they are refused, but inside "no accepted plan ever yields a missing
     # sample"): iterating such a plan to the end without an exception means fewer samples were delivered than asked for
     if only is None or (len(only) == 5 and only[4] == "beyond"):
